@@ -142,7 +142,7 @@ Record src := { s_charset : option str; s_items : list item }.
 Inductive content := CText (t : N) | CBytes (b : N).
 Inductive outcome :=
   | ONothing                               (* a falsy value: None, (), '' *)
-  | OWrongLen                              (* truthy, len(r) <> 2 *)
+  | OWrongLen                              (* not a 2-sequence, or a mistyped one: 5, 'ab', (None, 123), (b'utf-8', b'..') *)
   | ONoContent                             (* (x, None) *)
   | OContent (http : enc) (c : content)    (* (http, text) or (http, bytes) *)
   | ORaise (e : exn).
